@@ -339,6 +339,7 @@ func incrBubbleCfg(sc *Sched, w *gworld, budget int) sim.BubbleConfig {
 		Victim:     sc.Victim,
 		MaxSteps:   budget,
 		WakePoints: incrWake,
+		PCT:        sc.PCT,
 		Guards: map[string]func() bool{
 			// Executor.dirty is held (shared) by every Run for its whole duration; a
 			// goroutine blocked on a mutex is invisible to synctest, so the
